@@ -87,6 +87,62 @@ def reffeatures(b):
     return feats
 
 
+def linear_form(t):
+    """Blueprint of an Int / Real term -> {symbol name: coefficient} (constant under None), or None if the term is
+    not built from symbols, constants, +, - and products with constants only."""
+    from fractions import Fraction
+    op, params, ch = t
+    if op == "SYMBOL":
+        return {params[0]: Fraction(1)}
+    if op == "CONST":
+        return {None: Fraction(params[1])} if params[0] in (INT, REAL) else None
+    if op in ("PLUS", "MINUS"):
+        out = {}
+        for i, c in enumerate(ch):
+            f = linear_form(c)
+            if f is None:
+                return None
+            sgn = -1 if (op == "MINUS" and i > 0) else 1
+            for k, v in f.items():
+                out[k] = out.get(k, 0) + sgn * v
+        return out
+    if op == "TIMES":
+        fs = [linear_form(c) for c in ch]
+        if any(f is None for f in fs):
+            return None
+        consts = [f for f in fs if set(f) <= {None}]
+        others = [f for f in fs if not set(f) <= {None}]
+        if len(others) > 1:
+            return None
+        k = Fraction(1)
+        for f in consts:
+            k *= f.get(None, 0)
+        return {n: v * k for n, v in (others[0] if others else {None: Fraction(1)}).items()}
+    return None
+
+
+def outside_difference_logic(b, sort):
+    """An arithmetic atom that is certainly not a difference constraint (x - y ~ c): more than two variables, a
+    coefficient other than +1 / -1, or two variables of the same sign.  Atoms this cannot normalise are not judged."""
+    for t in subterms(b):
+        if t[0] in ("LE", "LT", "EQUALS") and len(t[2]) == 2:
+            try:
+                if reftype(t[2][0]) != sort:
+                    continue
+            except IllTyped:
+                continue
+            l, r = linear_form(t[2][0]), linear_form(t[2][1])
+            if l is None or r is None:
+                continue
+            d = dict(l)
+            for k, v in r.items():
+                d[k] = d.get(k, 0) - v
+            coefs = [v for k, v in d.items() if k is not None and v != 0]
+            if len(coefs) > 2 or any(abs(v) != 1 for v in coefs) or (len(coefs) == 2 and coefs[0] == coefs[1]):
+                return t
+    return None
+
+
 def theory_lacks(theory, feats):
     miss = []
     for f in feats:
@@ -135,6 +191,13 @@ def check_detection(run, bp):
         if miss:
             run.fail({"subcheck": "detect:get_theory", "missing": miss[0]}, case,
                      "get_theory lacks %r for %s\n theory: %s" % (miss, show(b), th))
+        for flag, sort in ((th.integer_difference, INT), (th.real_difference, REAL)):
+            bad = outside_difference_logic(b, sort) if flag else None
+            if bad is not None:
+                run.cls("difference-logic-judged")
+                run.fail({"subcheck": "detect:difference-logic"}, case,
+                         "the detected theory is a difference logic (%s) but %s is not a difference constraint\n formula=%s" % (
+                             th, show(bad, 200), show(b, 300)))
         try:
             lg = get_logic(f, env)
         except NoLogicAvailableError:
@@ -489,7 +552,7 @@ def shard_logic_order():
 def main():
     chk = Check(PID, "exploration", RULE, assumptions=[
         "feature extraction in vf/checks/c13.py reffeatures: non-linear = product with >=2 factors mentioning symbols, "
-        "division whose divisor mentions a symbol, or pow; difference logic is not judged",
+        "division whose divisor mentions a symbol, or pow; difference logic is judged one-sidedly: an atom whose linear form has more than two variables, a coefficient other than +-1 or two variables of one sign is certainly outside it",
         "theories are restricted to well-formed ones (difference => arithmetic, const arrays => arrays)"])
     thorough = chk.tier == "thorough"
     jobs = [(shard_detect, dict(shard=s, seed=chk.seed, n=30000 if thorough else 1500)) for s in range(10)]
